@@ -67,6 +67,7 @@ def c06(ctx):
     exc.r_exc(ctx, SW + 'decode', {'ValueError'}, floor=5)
     exc.r_typed_index(ctx, SW + 'set_vt')
     exc.r_typed_dispatch(ctx, fqs, floor=2)
+    misc2.r_conv(ctx)           # number_to_bit returns exactly bit_length items on every arm
 
 
 def c02(ctx):
@@ -151,6 +152,7 @@ def c08(ctx):
     repair.r_cand(ctx)
     repair.r_sites(ctx)
     repair.r_recomb(ctx)
+    repair.r_fallback(ctx)      # a detected error is never dropped by an early hand-back of the input
 
 
 def c09(ctx):
@@ -229,6 +231,7 @@ def c19(ctx):
 
 
 def c20(ctx):
+    misc2.r_shuf(ctx)           # the same seed gives the same table (fresh-process equality of the randomised call)
     purity.r_pure(ctx, None, floor=100)
     purity.r_state(ctx)
     purity.r_verb(ctx, floor_funcs=10)
